@@ -310,80 +310,10 @@ kfs_harness! {
     }
 }
 
-kfs_harness! {
-    #[kani::unwind(48)]
-    fn raw_apply_update_moveback_a_b() {
-        kfs::reset();
-        kfs::k().gran_s = kani::any();
-        kani::assume(kfs::k().gran_s <= 2);
-        kfs::mkdir(kfs::D_W);
-        let na = kfs::any_published(kfs::S_A, 1);
-        let nb = kfs::any_published(kfs::S_B, 2);
-        let ia = kfs::install(kfs::D_W, kfs::S_A, na);
-        let ib = kfs::install(kfs::D_W, kfs::S_B, nb);
-        let plan = second_chance::Update { to_evict: vec![], to_move_back: vec![cached(kfs::S_A, &na), cached(kfs::S_B, &nb)] };
-        let a_gone: bool = kani::any();
-        if a_gone { kfs::k().dir[kfs::D_W as usize].slot[kfs::S_A as usize] = kfs::NONE; }
-        let before_s = kfs::k().now_s;
-        kfs::begin_op(kfs::OP_RAW_APPLY, 2, a_gone as i64, 0);
-        let r = apply_update(kfs::path_of(kfs::D_W, kfs::NONE), plan);
-        assert!(r.is_ok(), "KV-C05: maintenance skips what has vanished");
-        let st = kfs::k();
-        assert!(kfs::bound(kfs::D_W, kfs::S_B) == ib, "KV-C07: reprieved files are not deleted");
-        let b = st.ino[ib as usize];
-        assert!(b.mt_s >= before_s - 1 && !kfs::accessed(&b),
-                "KV-C07: every reprieved file moves to the back of the queue with its read mark cleared, even when an earlier one vanished");
-        if !a_gone {
-            let a = st.ino[ia as usize];
-            assert!(!kfs::accessed(&a), "KV-C07: reprieved files have their read mark cleared");
-            assert!(kfs::at_least(b.mt_s, b.mt_ns, a.mt_s, a.mt_ns), "KV-C07: reprieved files are re-queued in plan order");
-        }
-        assert!(st.kind_calls[kfs::C_UNLINK as usize] == 0, "KV-C07: nothing is deleted when the plan evicts nothing");
-        kani::cover!(a_gone, "first reprieved file vanished");
-        kani::cover!(!a_gone, "both present");
-        std::mem::forget(r);
-    }
-}
-
-fn apply_moveback_chain(a_gone_sym: bool) {
-    // plan: evict [ka]; move back [kb, kc] where kb has vanished: kc must still be re-queued
-    kfs::reset();
-    kfs::mkdir(kfs::D_W);
-    let na = kfs::any_published(kfs::S_A, 1);
-    let nb = kfs::any_published(kfs::S_B, 2);
-    let nc = kfs::any_published(kfs::S_C, 3);
-    kfs::install(kfs::D_W, kfs::S_A, na);
-    kfs::install(kfs::D_W, kfs::S_B, nb);
-    let ic = kfs::install(kfs::D_W, kfs::S_C, nc);
-    let plan = second_chance::Update { to_evict: vec![cached(kfs::S_A, &na)], to_move_back: vec![cached(kfs::S_B, &nb), cached(kfs::S_C, &nc)] };
-    let b_gone: bool = if a_gone_sym { kani::any() } else { true };
-    if b_gone { kfs::k().dir[kfs::D_W as usize].slot[kfs::S_B as usize] = kfs::NONE; }
-    let before_s = kfs::k().now_s;
-    kfs::begin_op(kfs::OP_RAW_APPLY, 3, b_gone as i64, 0);
-    let r = apply_update(kfs::path_of(kfs::D_W, kfs::NONE), plan);
-    assert!(r.is_ok(), "KV-C05: maintenance skips what has vanished");
-    let st = kfs::k();
-    assert!(kfs::bound(kfs::D_W, kfs::S_C) == ic, "KV-C07: reprieved files are not deleted");
-    let c = st.ino[ic as usize];
-    assert!(c.mt_s >= before_s - 1 && !kfs::accessed(&c),
-            "KV-C07: every reprieved file moves to the back of the queue with its read mark cleared, even when an earlier one vanished");
-    kani::cover!(b_gone, "an earlier reprieved file vanished");
-    std::mem::forget(r);
-}
-
-kfs_harness! {
-    #[kani::unwind(48)]
-    fn raw_apply_update_chain_sym() {
-        apply_moveback_chain(true);
-    }
-}
-
-kfs_harness! {
-    #[kani::unwind(48)]
-    fn raw_apply_update_chain_gone() {
-        apply_moveback_chain(false);
-    }
-}
+// Plans that re-queue two or more files (and the case where an earlier one has vanished) are
+// decided on the MIR of apply_update by engine M (unit c07_apply_glue): under CBMC the second
+// iteration of the loop over a Vec<CachedFile> with a partially symbolic tree did not finish
+// in 25 minutes.
 
 // collect + (capacity 0: every candidate is a victim, C08) + apply_update, on real code: the
 // end-to-end effect of `prune(dir, 0)` on a directory holding an application dot-file.
@@ -475,30 +405,5 @@ kfs_harness! {
         let r = insert_or_touch(kfs::path_of(kfs::D_WT, kfs::S_U0), kfs::path_of(kfs::D_W, kfs::S_A));
         std::mem::forget(r);
         assert!(false, "KV-SANITY: reachable end of harness");
-    }
-}
-
-
-// experiment: tempfile stub after a symbolic inode table
-kfs_harness! {
-    #[kani::unwind(48)]
-    fn exp_tempfile_after_symbolic_inodes() {
-        kfs::reset();
-        kfs::mkdir(kfs::D_W);
-        kfs::mkdir(kfs::D_WT);
-        let c: u8 = kani::any();
-        if c != 0 {
-            kfs::install(kfs::D_W, kfs::S_A, kfs::any_published(kfs::S_A, c));
-        }
-        // a lookup that may hit (descriptor table becomes symbolic)
-        let f = std::fs::File::open(kfs::path_of(kfs::D_W, kfs::S_A));
-        let t = tempfile::NamedTempFile::new_in(kfs::path_of(kfs::D_WT, kfs::NONE));
-        assert!(t.is_ok(), "KV-MODEL: temp file created");
-        let t = t.unwrap();
-        let p: &std::path::Path = t.path();
-        let loc = kfs::classify(p);
-        assert!(loc.ok && loc.dir == kfs::D_WT, "KV-MODEL: temp path classified");
-        std::mem::forget(f);
-        std::mem::forget(t);
     }
 }
